@@ -527,12 +527,13 @@ def swap_memory():
         with f:
             sin = sout = None
             for line in f:
-                # values are expressed in 4 kilo bytes, we want
+                # values are expressed in pages (4 KiB on most systems,
+                # 16 or 64 KiB on some arm64 / ppc64 kernels), we want
                 # bytes instead
                 if line.startswith(b'pswpin'):
-                    sin = int(line.split(b' ')[1]) * 4 * 1024
+                    sin = int(line.split(b' ')[1]) * PAGESIZE
                 elif line.startswith(b'pswpout'):
-                    sout = int(line.split(b' ')[1]) * 4 * 1024
+                    sout = int(line.split(b' ')[1]) * PAGESIZE
                 if sin is not None and sout is not None:
                     break
             else:
